@@ -119,7 +119,10 @@ MidDis == dis.pc \in {"count", "reserve"}
 MidCmd(c) == cmd[c].pc \in {"pend", "markdel", "enq"}
 MidInf(n) == inf[n] # "idle"
 AnyMid == MidProv \/ MidDep \/ MidDis \/ (\E w \in Workers : MidWk(w)) \/ (\E c \in NCs : MidCmd(c) \/ MidInf(c))
-Turn(mid) == Grain = "call" \/ mid \/ ~AnyMid
+\* common enabling condition of every action: the process did not crash, the generator's depth bound, the grain
+Turn(mid) == /\ ~crash
+             /\ (Record # "all" \/ Len(h) < MaxLen)
+             /\ (Grain = "call" \/ mid \/ ~AnyMid)
 
 Init ==
     /\ api = [n \in NCs |-> IF n <= Pre THEN "live" ELSE "absent"]
@@ -439,22 +442,23 @@ Resync(n) ==
     /\ UNCHANGED <<api, launched, drifted, replicas, known, marked, cdel, tainted, ps, prov, wk, dep, dis, cmd, queue, inf, crash>>
 
 \* ---------------------------------------------------------------- next-state relation
+Q_DeleteAny == \E q \in queue : Q_Delete(q)
+Q_FailGone == \E q \in queue : Q_Fail(q, FALSE)
+Q_FailTimeout == \E q \in queue : Q_Fail(q, TRUE)
 Controllers ==
     \/ P_Count \/ P_Reserve \/ D_Count \/ D_List \/ X_Begin \/ X_Count \/ X_Reserve
     \/ \E w \in Workers : W_Get(w) \/ W_Create(w, TRUE) \/ W_Seed(w) \/ W_Release(w)
     \/ \E n \in NCs : D_Delete(n) \/ D_Mark(n) \/ X_Taint(n, TRUE) \/ X_Pend(n) \/ X_MarkDel(n) \/ X_Enq(n)
                       \/ I_Deliver(n) \/ I_Update(n) \/ GC(n)
-    \/ \E q \in queue : Q_Delete(q) \/ Q_Fail(q, FALSE)
+    \/ Q_DeleteAny \/ Q_FailGone
 EnvProgress == \E n \in NCs : Launch(n) \/ Finalize(n)
 EnvFaults ==
     \/ \E w \in Workers : W_Create(w, FALSE)
     \/ \E n \in NCs : X_Taint(n, FALSE) \/ Delete(n) \/ Drift(n) \/ Resync(n)
     \/ \E r \in ScaleTo : Scale(r)
-    \/ \E q \in queue : Q_Fail(q, TRUE)
+    \/ Q_FailTimeout
 
-Next == /\ ~crash
-        /\ (Record # "all" \/ Len(h) < MaxLen)
-        /\ (Controllers \/ EnvProgress \/ EnvFaults)
+Next == Controllers \/ EnvProgress \/ EnvFaults
 Spec == Init /\ [][Next]_vars
 
 \* weak fairness of every controller step and of the environment's progress steps (launch, finalization)
